@@ -29,20 +29,35 @@ Section AdmittedGeos.
   Lemma by_impact_desc_In l x : In x (by_impact_desc O gs l) <-> In x l.
   Proof. unfold by_impact_desc. induction l as [|i l IH]; cbn; [tauto|]. rewrite ins_by_impact_In, IH. intuition. Qed.
 
+  Lemma In_positions_filter (p : nat -> bool) i : In i (filter p (positions gs)) <-> i < length gs /\ p i = true.
+  Proof. unfold positions. rewrite filter_In, in_seq. intuition lia. Qed.
+
+  (* the geos admitted before the n_geos_max cut *)
+  Lemma geos_before_cut_admitted x :
+    In x (union (diff (assignable_set O gs) (union (too_large_set O par gs) (over_budget_set O par gs))) (must_include_set O gs))
+    <-> In x admitted0.
+  Proof.
+    rewrite In_union, In_diff, In_union. unfold assignable_set, too_large_set, over_budget_set, must_include_set.
+    rewrite !In_positions_filter, In_admitted0.
+    destruct (assignable x), (too_large O par gs x), (over_budget O par gs x), (must_include x); cbn; intuition (try discriminate; try lia).
+  Qed.
+
   Lemma within_constraints_incl : incl within_constraints admitted0.
   Proof.
-    unfold Search.within_constraints. destruct (p_n_geos_max par) as [m|]; [|apply incl_refl].
-    destruct (_ <? _)%Z; [|apply incl_refl]. cbv zeta. intros x Hx. apply in_app_or in Hx.
-    destruct Hx as [Hx|Hx]; [apply filter_In in Hx; apply Hx|].
-    apply firstn_incl in Hx. apply filter_In in Hx. destruct Hx as [Hx _]. apply (proj1 (by_impact_desc_In _ _)) in Hx. exact Hx.
+    unfold Search.within_constraints. cbv zeta. destruct (p_n_geos_max par) as [m|];
+      [destruct (_ >? _)%Z|]; intros x Hx; try (apply geos_before_cut_admitted; exact Hx).
+    apply In_union in Hx. destruct Hx as [Hx|Hx].
+    - apply geos_before_cut_admitted. apply In_union. right. exact Hx.
+    - apply firstn_incl in Hx. apply filter_In in Hx. destruct Hx as [_ Hx]. apply andb_true_iff in Hx.
+      destruct Hx as [Hx _]. apply mem_spec in Hx. apply geos_before_cut_admitted. exact Hx.
   Qed.
   (* n_geos_max never removes a geo that must be included *)
   Lemma must_include_kept i : i < length gs -> must_include i = true -> In i within_constraints.
   Proof.
     intros Hi Hm.
-    assert (H0 : In i admitted0) by (apply In_admitted0; split; [exact Hi|rewrite Hm; apply orb_true_r]).
-    unfold Search.within_constraints. destruct (p_n_geos_max par) as [m|]; [|exact H0].
-    destruct (_ <? _)%Z; [|exact H0]. cbv zeta. apply in_or_app. left. apply filter_In. split; assumption.
+    assert (H0 : In i (must_include_set O gs)) by (apply In_positions_filter; split; assumption).
+    unfold Search.within_constraints. cbv zeta. destruct (p_n_geos_max par) as [m|];
+      [destruct (_ >? _)%Z|]; apply In_union; [left|right|right]; exact H0.
   Qed.
 
   Lemma In_geo_index i : In i geo_index <-> i < length gs /\ In i within_constraints.
